@@ -15,7 +15,7 @@ Module MiscSites.
     (Broker.rc s = Broker.RDone -> Broker.done s = true /\ closed (Broker.resp s) = true /\ len (Broker.resp s) = 0).
   Proof.
     intros c l s H. assert (I : BrokerP.Inv s) by (apply (BrokerP.reach_inv c s); now exists l).
-    destruct I as (Hp & Hopen & Hsend & Hclose & Hrc & Hfin & Hdial & Hdone & Hrn).
+    destruct I as (Hp & Hopen & Hsend & Hclose & Hrc & Hfin & Hdial & Hdone & Hrn & Hauth & Hmade & Hnc).
     repeat split; intros.
     - destruct (Hopen (Hsend H0) (or_intror H0)) as (A & B & _); auto.
     - destruct (Hopen (Hsend H0) (or_intror H0)) as (A & B & _); auto.
